@@ -245,20 +245,27 @@ def cfg_from_header(name, text, san=SAN, wrap=False):
     return CONFIGS[name]
 
 
+def fz_harness_futures(pool, name):
+    hflags = HARNESS_FLAGS + ["-fsanitize=address,undefined", "-fno-sanitize-recover=all"]
+    if name == "fz_io":
+        hs = [os.path.join(VERIF, "src", name + ".cpp"), os.path.join(VERIF, "src", "harness.cpp")]
+    else:  # whole catalogue (everything but the rapidcheck driver)
+        hs = [os.path.join(VERIF, "src", name + ".cpp")] + [x for x in harness_sources() if not x.endswith("vf_main.cpp")]
+    return [pool.submit(compile_one, CXX, x, hflags, "fz-" + os.path.basename(x)[:-4]) for x in hs]
+
+
 def build_fuzzer(name="fz_io", cfgname="small-fuzz"):
     """libFuzzer binary: /repo/m4ri/*.c + shim with fuzzer-no-link instrumentation, target src/<name>.cpp"""
     cfg = CONFIGS[cfgname]
     with ThreadPoolExecutor(JOBS) as pool:
         objs = build_lib(cfgname, pool)
-        hflags = HARNESS_FLAGS + ["-fsanitize=address,undefined", "-fno-sanitize-recover=all"]
-        hs = [os.path.join(VERIF, "src", name + ".cpp"), os.path.join(VERIF, "src", "harness.cpp")]
-        futs = [pool.submit(compile_one, CXX, x, hflags, "fz-" + os.path.basename(x)[:-4]) for x in hs]
+        futs = fz_harness_futures(pool, name)
         hobjs = [f.result()[0] for f in futs]
     os.makedirs(BIN, exist_ok=True)
     h = hashlib.sha256(("\n".join(objs + hobjs)).encode()).hexdigest()[:16]
     out = os.path.join(BIN, "%s-%s-%s" % (name, cfgname, h))
     if not os.path.exists(out):
-        cmd = [CXX, "-o", out, "-fsanitize=fuzzer,address,undefined"] + hobjs + objs + ["-lpng", "-lz", "-lm"]
+        cmd = [CXX, "-o", out, "-fsanitize=fuzzer,address,undefined"] + hobjs + objs + (["-lrapidcheck"] if name != "fz_io" else []) + ["-lpng", "-lz", "-lm"]
         r = sh(cmd)
         if r.returncode != 0:
             raise RuntimeError("fuzzer link failed:\n" + r.stderr.decode()[-4000:])
@@ -340,6 +347,8 @@ if __name__ == "__main__":
     if "--setup" in sys.argv:
         with ThreadPoolExecutor(JOBS) as pool:
             build_harness(pool)
+            for f in fz_harness_futures(pool, "fz_ops") + fz_harness_futures(pool, "fz_io"):
+                f.result()
         log("setup done")
     else:
         names = [a for a in sys.argv[1:] if not a.startswith("-")] or ["small"]
